@@ -502,6 +502,7 @@ PROPS = {
             "C04_wellformed_code_ok", "C04_compiled_run_no_abort",
             "C04_step_keeps_natives_simple", "C04_nested_run_contract", "C04_checked_run_no_abort", "C04_run_agrees",
             "C04_run_no_abort_unless_check", "C04_run_no_abort_flat_tables",
+            "C04_checked_run_nested_ok", "C04_checked_run_cyclic_stops",
         ]},
         n_quick=200, n_thorough=2000,
         gen_timeout=3000,
